@@ -62,7 +62,7 @@ SETTINGS = {'disk_min_file_size': 8}
 BIG = 'BIG-' + 'x' * 12 + '\n' + 'y' * 10            # file-backed, written in two chunks
 BIG2 = 'BIG2' + 'z' * 12 + '\n' + 'w' * 10
 SMALL = 'sm'
-EXPECTED_SIGS = ()
+EXPECTED_SIGS = ('fanout_block_torn_by_kill:fanout',)       # recorded finding C07-F2 (known_findings.txt); recognised exactly by torn_between_shard_commits
 KILL_RECORDS = []       # one per kill point: see run_workload
 STRICT_REPAIR = True    # after check(fix=True) a second check() must report NOTHING (empty parent directories are pruned since the C17 fix)
 SETUP_NOW = 900.0
@@ -580,6 +580,58 @@ def kill_container(directory, cont, calls, kill_n=None, now=c05.NOW, timeout=5, 
     return out
 
 
+def torn_between_shard_commits(o, ikind, shards, wl, k, snap, allowed):
+    """The recorded finding C07-F2 (same root cause as C06-F6: FanoutCache.transact commits its shard transactions one after the other; there
+    is no atomic commit across SQLite databases), recognised EXACTLY: the container is a FanoutCache / DjangoCache with several shards, the
+    interrupted unit is a transaction block, the kill fell after a COMMIT of that block's end had executed and before its last one, and
+    every shard BY ITSELF holds either what it held before the block or what it holds after it (at least one of each).  Anything else
+    stays `contents_not_atomic`.  Returns the description or None."""
+    if ikind != 'fanout' or shards < 2 or k.get('started') is None:
+        return None
+    program = wl['program']
+    units = [u for u in units_of_program(program) if u[0] <= k['started'] <= u[1]]
+    if not units or program[units[0][0]].get('op') != 'begin_block':
+        return None
+    ev = k.get('events') or []
+    e0 = k.get('started_e0')
+    inside = ev[e0:] if isinstance(e0, int) else ev
+    commits = [e for e in inside if str(e).split()[0] == 'sql:COMMIT' or e == 'sql:COMMIT']
+    if k.get('kill_event') != 'sql:COMMIT' or not commits:
+        return None       # the kill must fall between two COMMITs of the block's end
+
+    def shard_of(key):
+        return o.fanout._hash(key) % shards
+
+    def by_shard(pairs):
+        d = {}
+        for key, v in pairs:
+            d.setdefault(shard_of(key), set()).add((repr(key), repr(v)))
+        return d
+    try:
+        got = by_shard((x[0], x[2]) for x in snap['items'] if x[1])
+        before = by_shard((x[0], x[2]) for x in allowed[0].final_view() if x[1])
+        after = by_shard((x[0], x[2]) for x in allowed[-1].final_view() if x[1])
+    except Exception:  # noqa  (a key the routing cannot hash)
+        return None
+    choice = []
+    for i in range(shards):
+        g, b_, a_ = got.get(i, set()), before.get(i, set()), after.get(i, set())
+        if g == a_ and g != b_:
+            choice.append('after')
+        elif g == b_ and g != a_:
+            choice.append('before')
+        elif g == b_ == a_:
+            choice.append('same')
+        else:
+            return None
+    if 'after' in choice and 'before' in choice:
+        return ('a transaction block over %d shards was cut by the kill between the COMMITs of its shard transactions: shards %r hold the state '
+                'after the block, shards %r the state before it (contents %r)' % (
+                    shards, [i for i, c in enumerate(choice) if c == 'after'], [i for i, c in enumerate(choice) if c == 'before'],
+                    [[x[0], x[2]] for x in snap['items']][:8]))
+    return None
+
+
 def inspect_container(directory, cont, wl, k, clock):
     """The post-mortem checks of `inspect` for a container of this section, made through THAT container: contents through a fresh handle,
     the container's check() reports nothing but unknown files / empty directories, a write through the container succeeds at once, the
@@ -609,8 +661,12 @@ def inspect_container(directory, cont, wl, k, clock):
             if (present or ikind == 'deque') and (v == MISS or (isinstance(v, str) and v.startswith('EXC:'))):
                 out.append(('present_key_unreadable', 'key %r is reported present (in / iteration) but reading it yields %r' % (key, v)))
         if not any(c05.final_matches(ikind, snap)(s) for s in allowed) and not out:
-            out.append(('contents_not_atomic', 'contents after the kill %r are neither the state after the finished calls %r nor that plus the interrupted '
-                        'call %r' % ([[x[0], x[2]] for x in snap['items']][:8], allowed[0].final_view()[:8], allowed[-1].final_view()[:8])))
+            torn = torn_between_shard_commits(o, ikind, shards, wl, k, snap, allowed)
+            if torn:
+                out.append(('fanout_block_torn_by_kill', torn))
+            else:
+                out.append(('contents_not_atomic', 'contents after the kill %r are neither the state after the finished calls %r nor that plus the interrupted '
+                            'call %r' % ([[x[0], x[2]] for x in snap['items']][:8], allowed[0].final_view()[:8], allowed[-1].final_view()[:8])))
         with instr.Installed(clock):
             ws = o.repair(False)
             bad = [w for w in ws if not issubclass(w.category, (diskcache.UnknownFileWarning, diskcache.EmptyDirWarning))]
@@ -747,6 +803,37 @@ def container_kills(ctx, res, stats, thorough, deadline=None):
         shutil.rmtree(tmpl, ignore_errors=True)
         if c05.enough(res, ID, EXPECTED_SIGS) or (deadline is not None and _time.time() > deadline):
             break
+
+
+def fanout_block_witness(ctx, res, stats):
+    """Directed witness of the recorded finding C07-F2: FanoutCache(shards=2), a transaction block that writes keys of both shards, killed
+    before each COMMIT of the block's end (the kill before the SECOND COMMIT falls between the two shard transactions)."""
+    cont = {'kind': 'fanout', 'shards': 2}
+    name, setup, program = [w for w in container_workloads(cont) if w[0] == 'block'][0]
+    wl = {'name': '%s:%s' % (cont_label(cont), name), 'kind': 'fanout', 'setup': setup, 'program': program, 'settings': SETTINGS}
+    tmpl = container_template(ctx, cont, setup)
+    try:
+        d0 = concdrv.scratch(ctx, 'c07c')
+        shutil.rmtree(d0)
+        shutil.copytree(tmpl, d0)
+        full = kill_container(d0, cont, program, kill_n=None)
+        shutil.rmtree(d0, ignore_errors=True)
+        if full['fatal'] or not full['done']:
+            return
+        seen = False
+        for kn, e in enumerate(full['events']):
+            if e != 'sql:COMMIT':
+                continue
+            viol, info, k, d = container_kill_case(ctx, cont, wl, tmpl, kn)
+            shutil.rmtree(d, ignore_errors=True)
+            case = {'check': 'container_kill', 'container': cont, 'workload': wl, 'kill_n': kn, 'kill_event': k.get('kill_event'), 'events_before': k['events'][-12:]}
+            res.count([wl['name'], 'witness', kn], nontrivial=True)
+            for sig, desc in viol[:3]:
+                seen = seen or sig.startswith('fanout_block_torn_by_kill')
+                res.violations.append(fw.Violation(sig, '%s [workload %s, killed before event %d/%d = %s]' % (desc, wl['name'], kn, full['nevents'], k.get('kill_event')), case))
+        stats['fanout_block_witness_seen'] = seen
+    finally:
+        shutil.rmtree(tmpl, ignore_errors=True)
 
 
 # ---------------------------------------------------------------------------
@@ -1299,6 +1386,8 @@ def run(ctx, big=False):
         open_kills(ctx, res, stats, thorough)
     if not c05.enough(res, ID, EXPECTED_SIGS):
         concurrent_kills(ctx, res, stats, stride=3 if not thorough else 1)
+    if not c05.enough(res, ID, EXPECTED_SIGS):
+        fanout_block_witness(ctx, res, stats)
     if not c05.enough(res, ID, EXPECTED_SIGS):
         # the containers built on Cache (FanoutCache with several shard counts, DjangoCache, Deque / Index obtained from a FanoutCache)
         container_kills(ctx, res, stats, thorough and not big, deadline=t0 + (260 if ctx.quick and not big else (480 if ctx.quick else 1500)))
